@@ -155,6 +155,9 @@ def install_env(ex, st, mod, fields):
         ex.prove(st, eq(T(20), want_year), "ToTM: tm_year is year - 1900, saturated only when that does not fit an int")
         ex.prove(st, and_(eq(T(24), fields["wday"]), eq(T(28), sub(fields["yday"], 1)), eq(T(32), ite(ne(fields["dst"], 0), 1, 0))),
                  "ToTM: tm_wday (0 = Sunday), tm_yday (0-based) and tm_isdst are those of the looked-up civil second")
+        bo = st.mem.get(buf.obj)
+        if bo is not None and not smt.is_sym(buf.off):
+            ex.prove(st, eq(size, bo.size - buf.off), "FormatTM: strftime is given exactly the size of the buffer it writes into")
         n = strmodel._cstrlen(ex, st, fmtp)
         text = bytes((ex.load(st, Ptr(fmtp.obj, fmtp.off + i), I8)) & 255 for i in range(n))
         out = strftime_model(text)
@@ -296,6 +299,15 @@ def replay_parse_model(job, m):
 
 def replay_model(job, m, desc=""):
     if job.startswith("driver-parse:"): return replay_parse_model(job, m)
+    if desc.startswith("FormatTM:") and not m.get("_far"):
+        # the buffer handed to strftime matters only for expansions that just fit its last (16x) attempt: %c with an 11-character year
+        from spec import cal
+        for fmt_ in ("%c", "%Y%c%H", "%c%c"):
+            for t in (-40000000000000000, -31600000000000000, 70000000000000000, -(1 << 63)):
+                f6 = cal.from_sec(t)
+                w = replay_model("driver-format:%r" % fmt_, {"y": f6[0], "m": f6[1], "d": f6[2], "hh": f6[3], "mm": f6[4], "ss": f6[5], "off": 0, "fs": 0, "_far": True}, "")
+                if w: return w
+        return None
     fmt = eval(job.split(":", 1)[1].split("(all")[0].split(",negative")[0])
     if isinstance(fmt, bytes): fmt = fmt.decode("latin1")
     toks = tokenize(fmt.encode("latin1"))
